@@ -121,6 +121,11 @@ fn gen_plan(rng: &mut Rng, tier: &str) -> Plan {
             let k = if next_key > 3 && rng.chance(1, 6) { rng.below(next_key) } else { next_key += 1; next_key - 1 };
             batch.push((k, size));
         }
+        // the entry that fills a blob index is exactly a page multiple on the device (36-byte header + 8-byte key + 8-byte length)
+        if matches!(shape, 1 | 2) && !batch.is_empty() && rng.chance(1, 2) {
+            let last = batch.len().min(index_cap) - 1;
+            batch[last].1 = PAGE - 36 - 8 - 8;
+        }
         if !batch.is_empty() {
             batches.push(batch);
         }
@@ -162,6 +167,11 @@ async fn run_plan(plan: &Plan) -> Result<Outcome, String> {
                 // only when the block still has room for them (one page each) - otherwise the blob ends with the block anyway
                 if free > 0 && free < index_cap && used_pages + free + 4 < cfg.block_size / PAGE {
                     batch = (0..free).map(|_| { fresh_key += 1; (fresh_key, 28 + (fresh_key as usize % 50)) }).collect();
+                    if bi % 2 == 0 {
+                        // ... and its last entry ends exactly on a page boundary
+                        let n = batch.len();
+                        batch[n - 1].1 = PAGE - 36 - 8 - 8;
+                    }
                     exact_fills += 1;
                 }
             }
